@@ -26,9 +26,9 @@ def gen(rng, tier, spec):
     nt = rng.weighted([(1, 1), (5, 2), (6, 3), (3, 4)])
     nslots = rng.range(1, 3)
     nkeys = rng.weighted([(3, 1), (5, 2), (3, 3)])
-    style = rng.below(10)          # 0-5: each (kind,key) requested at most once; 6-9: anything goes
-    once = style < 6
-    requested = set()
+    once = rng.below(10) < 6       # each (kind,key) requested at most once / anything goes
+    allkeys = [(a, b) for a in (0, 1) for b in range(nkeys)]
+    requested = []
     val = [0]
 
     def fresh_val(t):
@@ -36,50 +36,59 @@ def gen(rng, tier, spec):
         return 100 * (t + 1) + val[0]          # distinctive: who set it, and which call
 
     def key():
-        return (rng.below(2), rng.below(nkeys))
+        # mostly keys somebody asks for; sometimes any key (unknown / never requested)
+        if requested and rng.chance(4, 5):
+            return rng.pick(requested)
+        return rng.pick(allkeys)
 
-    progs = []
+    roles = [rng.weighted([(4, 'consumer'), (4, 'producer'), (3, 'mixed')]) for _ in range(nt)]
+    if nt >= 2 and 'consumer' not in roles and 'mixed' not in roles:
+        roles[rng.below(nt)] = 'consumer'
+    progs = [[] for _ in range(nt)]
+    held = [[] for _ in range(nt)]
+    # consumers first decide what they ask for, so that producers can aim at it
+    plan = []
     for t in range(nt):
-        role = rng.weighted([(4, 'consumer'), (4, 'producer'), (3, 'mixed')])
         n = rng.range(1, 5)
-        prog = []
-        used_slots = []
-        for _ in range(n):
-            if role == 'consumer':
-                o = rng.weighted([(5, GETF), (3, FREADY), (4, FGET), (1, ISREC), (1, ISCOMP), (2, FINISHED), (1, SETC)])
-            elif role == 'producer':
-                o = rng.weighted([(4, SETC), (4, SETM), (2, FULFILL), (1, ISREC), (1, ISCOMP), (1, FINISHED), (1, GETF)])
+        ops = []
+        for i in range(n):
+            if roles[t] == 'consumer':
+                o = GETF if i == 0 else rng.weighted([(3, GETF), (3, FREADY), (5, FGET), (1, ISREC), (1, ISCOMP), (2, FINISHED), (1, SETC)])
+            elif roles[t] == 'producer':
+                o = rng.weighted([(4, SETC), (4, SETM), (2, FULFILL), (1, ISREC), (2, ISCOMP), (1, FINISHED), (1, GETF)])
             else:
                 o = rng.weighted([(3, GETF), (2, SETC), (2, SETM), (1, FULFILL), (2, ISREC), (2, ISCOMP), (2, FINISHED),
                                   (2, FREADY), (3, FGET)])
             if o == GETF:
-                kd, ky = key()
-                if once and (kd, ky) in requested:
-                    free = [(a, b) for a in (0, 1) for b in range(nkeys) if (a, b) not in requested]
-                    if not free:
-                        o = FGET
-                    else:
-                        kd, ky = rng.pick(free)
-                if o == GETF:
-                    requested.add((kd, ky))
-                    sl = rng.below(nslots)
-                    used_slots.append(sl)
-                    prog.append([GETF, kd, ky, sl])
+                free = [kk for kk in allkeys if kk not in requested]
+                if once and not free:
+                    o = FGET
+                else:
+                    kk = rng.pick(free) if (once or (free and rng.chance(1, 2))) else rng.pick(allkeys)
+                    requested.append(kk)
+                    ops.append((GETF, kk))
                     continue
-            if o in (SETC, SETM):
+            ops.append((o, None))
+        plan.append(ops)
+    for t in range(nt):
+        for o, kk in plan[t]:
+            if o == GETF:
+                sl = rng.below(nslots)
+                held[t].append(sl)
+                progs[t].append([GETF, kk[0], kk[1], sl])
+            elif o in (SETC, SETM):
                 kd, ky = key()
-                prog.append([o, kd, ky, fresh_val(t)])
+                progs[t].append([o, kd, ky, fresh_val(t)])
             elif o == FULFILL:
-                prog.append([FULFILL, 5000 + fresh_val(t)])
+                progs[t].append([FULFILL, 5000 + fresh_val(t)])
             elif o in (ISREC, ISCOMP, FINISHED):
                 kd, ky = key()
-                prog.append([o, kd, ky])
+                progs[t].append([o, kd, ky])
             else:
-                sl = rng.pick(used_slots) if used_slots and rng.chance(5, 6) else rng.below(nslots)
-                prog.append([o, sl])
-        progs.append(prog)
+                sl = rng.pick(held[t]) if held[t] and rng.chance(9, 10) else rng.below(nslots)
+                progs[t].append([o, sl])
     cw = ((1, 0),)
-    kind = rng.below(6)
+    kind = rng.below(8)
     if kind == 4:
         # boundary-aimed: stop one thread right after its invoke (1), inside its critical section (2),
         # or after the unlock (3) of its j-th operation, and let the others run
@@ -88,6 +97,22 @@ def gen(rng, tier, spec):
         sched = R.sched_boundary(rng, nt, first, k, rng.range(0, 40), cw)
     elif kind == 5:
         sched = []                 # the fair tail only (round robin)
+    elif kind in (6, 7):
+        # phased: the requests first, then the producers (one of them possibly stopped inside its critical
+        # section), then everybody: consumers observe values set while they were not running
+        sched = []
+        cons = [t for t in range(nt) if roles[t] != 'producer'] or [0]
+        prod = [t for t in range(nt) if roles[t] == 'producer'] or list(range(nt))
+        for t in cons:
+            ng = 0
+            for op in progs[t]:
+                if op[0] != GETF:
+                    break
+                ng += 1
+            sched += [(t, 0)] * (3 * ng)
+        for t in prod:
+            sched += [(t, 0)] * rng.range(2, 3 * len(progs[t]))
+        sched += R.sched_random(rng, nt, rng.range(0, 30), cw)
     else:
         sched = R.any_sched(rng, nt, 50, cw)
     return {'cfg': [nslots], 'progs': progs, 'sched': sched}
@@ -266,7 +291,7 @@ def mon_stable(case, lines):
 def mon_query(case, lines):
     """isRecognized / isCompleted disagree with the life cycle Unknown -> Pending -> Completed -> Unknown"""
     for i, t, what, op, obs, exp, sp in _replay(case, lines):
-        if what == 'ret' and op[0] in LOCKING and obs != exp:
+        if what == 'ret' and op[0] in LOCKING and exp is not None and obs != exp:
             return 'thread %d: %s returned %s at trace line %d, the specification gives %s' % (t, op, obs, i, exp)
     return None
 
